@@ -530,39 +530,84 @@ def enumerate_behaviours(ctx, fams, maxpath, maxlenup, maxlenobs, maxlensel, sel
 
 
 def run(ctx):
-    quick = ctx.quick
-    if quick:
-        fams, maxpath, maxlenup, maxlenobs, maxlensel, selallmax, nrand = [(2, 1), (1, 3)], 3, 12, 4, 16, 4, 200
-    else:
-        fams, maxpath, maxlenup, maxlenobs, maxlensel, selallmax, nrand = [(3, 2), (2, 3)], 3, 12, 4, 16, 4, 3000
-    ctx.bounds = {"coordinate_families_(range,max_triangles)": fams, "flipped": [False, True], "up_samplings": f"0..{MAXLEVEL}",
-                  "calls_per_behaviour": maxpath, "up/nbr_on_sets_up_to": maxlenup, "containment_on_sets_up_to": maxlenobs, "for_indexes_on_sets_up_to": maxlensel,
-                  "all_index_subsets_up_to": selallmax, "queries": "all quarter-unit lattice points strictly inside a triangle, "
-                  "as Point and (by turn) Circle/Square/Polygon/Triangle", "random_instances": nrand,
-                  "sides": SIDES + ["uniform(0.05,3)"], "offsets": OFFSETS + ["uniform(-3,3)"], "tolerance_fine_units": TOL}
     import time
+
+    quick = ctx.quick
+    maxlenup, maxlenobs, maxlensel, selallmax = 12, 4, 16, 4
+    if quick:
+        runs, nrand = [([(2, 1), (1, 3)], 3)], 200
+    else:
+        # (families, calls per behaviour): deep behaviours on <=2 triangles in (-3..3)^2 and <=3 in (-1..1)^2,
+        # two-call behaviours on every set of <=3 triangles in (-2..2)^2
+        runs, nrand = [([(3, 2), (1, 3)], 3), ([(2, 3)], 2)], 2000
+    ctx.bounds = {"machine_runs_(families_(range,max_triangles),calls_per_behaviour)": runs, "flipped": [False, True],
+                  "up_samplings": f"0..{MAXLEVEL}", "up/nbr_on_sets_up_to": maxlenup, "containment_on_sets_up_to": maxlenobs,
+                  "for_indexes_on_sets_up_to": maxlensel, "all_index_subsets_up_to": selallmax,
+                  "queries": "all quarter-unit lattice points strictly inside a triangle, as Point and (by turn) Circle/Square/Polygon/Triangle",
+                  "random_instances": nrand, "sides": SIDES + ["uniform(0.05,3)"], "offsets": OFFSETS + ["uniform(-3,3)"],
+                  "tolerance_fine_units": TOL}
     t0 = time.time()
-    groups, nbeh = enumerate_behaviours(ctx, fams, maxpath, maxlenup, maxlenobs, maxlensel, selallmax)
+    merged, nbeh = {}, 0
+    for k, (fams, maxpath) in enumerate(runs):
+        groups, nb = enumerate_behaviours(ctx, fams, maxpath, maxlenup, maxlenobs, maxlensel, selallmax, tag=f"MC_Triangles_{k}")
+        for c, fl, paths in groups:
+            have = merged.setdefault((json.dumps(c), fl), {})
+            for p in paths:
+                have.setdefault(json.dumps(p), p)
+        nbeh += nb
+    groups = [(json.loads(c), fl, list(paths.values())) for (c, fl), paths in merged.items()]
+    nbeh_distinct = sum(len(g[2]) for g in groups)
+    calls = {}
+    for g in groups:
+        for p in g[2]:
+            calls[p[-1]["a"]] = calls.get(p[-1]["a"], 0) + 1
+    ctx.note(f"machine transitions by action (all replayed): {calls}")
     t1 = time.time()
     ctx.exhaustive = True
-    recs, maxres = [], 0.0
-    for part, mr in core.pmap(replay_group, [(c, fl, paths, ctx.seed) for c, fl, paths in groups], chunksize=4):
-        recs.extend(part)
-        maxres = max(maxres, mr)
-    ctx.replayed = nbeh
-    nb = len(recs)
+    maxres, nb, nrec, t_replay, t_valid, sampled = 0.0, 0, 0, 0.0, 0.0, set()
+
+    def take_samples(recs):
+        for want in ("up", "contain"):
+            if want not in sampled:
+                for r in recs:
+                    if r["api"] == want and len(r.get("pre", r.get("tris"))) <= 2:
+                        r = {k: v for k, v in r.items() if k != "path"}
+                        if want == "contain":  # first queries only
+                            r["shapes"], r["reported"], r["truncated_from"] = r["shapes"][:6], r["reported"][:6], len(r["shapes"])
+                        ctx.sample(r)
+                        sampled.add(want)
+                        break
+
+    # batches keep the memory of the recorded calls bounded; every batch is validated by its own TLC processes
+    groups.sort(key=lambda g: (len(g[0]), g[0], g[1]))
+    batch = 1200
+    for b in range(0, len(groups), batch):
+        ta = time.time()
+        recs = []
+        for part, mr in core.pmap(replay_group, [(c, fl, paths, ctx.seed) for c, fl, paths in groups[b : b + batch]], chunksize=4):
+            recs.extend(part)
+            maxres = max(maxres, mr)
+        nb += len(recs)
+        tb = time.time()
+        take_samples(recs)
+        validate(ctx, recs, f"C20-b{b // batch}")
+        t_replay += tb - ta
+        t_valid += time.time() - tb
+    ctx.replayed = nbeh_distinct
     ks = list(range(nrand))
-    for part in core.pmap(_rand_many, [(ctx.seed, ks[j::64]) for j in range(64)], chunksize=1):
-        recs.extend(part)
-    for want in ("up", "contain"):
-        for r in recs:
-            if r["api"] == want and len(json.dumps(r)) < 2500:
-                ctx.sample({k: v for k, v in r.items() if k != "path"})
-                break
-    t2 = time.time()
-    validate(ctx, recs, "C20")
-    ctx.note(f"phases: TLC machine {t1 - t0:.0f}s, replay into the implementation {t2 - t1:.0f}s, trace validation {time.time() - t2:.0f}s")
-    ctx.note(f"{len(groups)} initial inputs, {nbeh} behaviours replayed -> {nb} records; {nrand} random instances -> {len(recs) - nb} records; "
+    for b in range(0, nrand, 1000):
+        ta = time.time()
+        recs = []
+        sub = ks[b : b + 1000]
+        for part in core.pmap(_rand_many, [(ctx.seed, sub[j::64]) for j in range(64)], chunksize=1):
+            recs.extend(part)
+        nrec += len(recs)
+        tb = time.time()
+        validate(ctx, recs, f"C20-r{b // 1000}")
+        t_replay += tb - ta
+        t_valid += time.time() - tb
+    ctx.note(f"phases: TLC machine {t1 - t0:.0f}s, replay into the implementation {t_replay:.0f}s, trace validation {t_valid:.0f}s")
+    ctx.note(f"{len(groups)} initial inputs, {nbeh_distinct} distinct behaviours ({nbeh} enumerated) replayed -> {nb} records; {nrand} random instances -> {nrec} records; "
              f"largest lattice residual seen in the exhaustive part {maxres:.2e} fine units (tolerance {TOL})")
     ctx.assumptions = [
         "triangles are compared as vertex sets on the instance's fine lattice; a vertex further than 1e-9 fine units from the lattice is a rejection (on-lattice clause)",
